@@ -204,7 +204,7 @@ package service
 //@ preserves wf: WF(raw)
 //@ preserves [C03] deposits_in_custody: depInv(raw, bal)
 //@ requires a3_signer_ordinary: ordinary(msg.Owner)
-//@ requires a2_validated: (forall d Str :: amt(msg.Deposit, d) >= 0) && len(msg.Provider) > 0
+//@ requires a2_validated: (forall d Str :: amt(msg.Deposit, d) >= 0) && len(msg.Provider) > 0 && len(msg.Owner) > 0
 //@ ensures [C05] module_services_cannot_be_bound: err == NoErr ==> !moduleSvcFound(msg.ServiceName)
 //@ ensures [C05] provider_keeps_its_owner: err == NoErr ==> (ownerFound(old(raw), msg.Provider) ==> addrEq(msg.Owner, ownerOf(old(raw), msg.Provider)))
 //@ ensures [C05] only_the_signer_is_debited: forall a Bytes, d Str :: {bal[a][d]} a != msg.Owner ==> bal[a][d] >= old(bal)[a][d]
@@ -521,7 +521,7 @@ package service
 //@ vars (keeper.Keeper).IterateServiceBindings: k=github.com/irismod/service/keeper.Keeper#0 ctx=github.com/cosmos/cosmos-sdk/types.Context#0 op=func#0 binding=github.com/irismod/service/types.ServiceBinding#0 stop=bool#0 store=github.com/cosmos/cosmos-sdk/types.KVStore#0 iterator=github.com/cosmos/cosmos-sdk/types.Iterator#0 binding=github.com/irismod/service/types.ServiceBinding#1 stop=bool#1
 //@ vars (keeper.Keeper).IterateServiceDefinitions: k=github.com/irismod/service/keeper.Keeper#0 ctx=github.com/cosmos/cosmos-sdk/types.Context#0 op=func#0 definition=github.com/irismod/service/types.ServiceDefinition#0 stop=bool#0 store=github.com/cosmos/cosmos-sdk/types.KVStore#0 iterator=github.com/cosmos/cosmos-sdk/types.Iterator#0 definition=github.com/irismod/service/types.ServiceDefinition#1 stop=bool#1
 //@ vars (keeper.Keeper).IterateWithdrawAddresses: k=github.com/irismod/service/keeper.Keeper#0 ctx=github.com/cosmos/cosmos-sdk/types.Context#0 op=func#0 owner=github.com/cosmos/cosmos-sdk/types.AccAddress#0 withdrawAddress=github.com/cosmos/cosmos-sdk/types.AccAddress#1 stop=bool#0 store=github.com/cosmos/cosmos-sdk/types.KVStore#0 iterator=github.com/cosmos/cosmos-sdk/types.Iterator#0 ownerAddress=github.com/cosmos/cosmos-sdk/types.AccAddress#2 withdrawAddress=github.com/cosmos/cosmos-sdk/types.AccAddress#3 stop=bool#1
-//@ props C19
+//@ props C19 C18
 //@ loop IterateServiceDefinitions.0 invariant pos_in_range: 0 <= iterator_pos && iterator_pos <= itCount(iterator_snap, iterator_pfx)
 //@ loop IterateServiceDefinitions.0 invariant snapshot: iterator_snap == raw && iterator_pfx == PAllDef
 //@ loop IterateServiceDefinitions.0 invariant listed_so_far: outer_definitions == defsIt(iterator_snap, iterator_pfx, iterator_pos)
